@@ -97,6 +97,11 @@ func c02Case(r *evid.Run, tier string, idx int, g *rng.R) {
 	o := adoc.GenOpts{MinNodes: 6, MaxNodes: 45, NS: g.Intn(2), Misc: g.P(50), Weird: g.P(15)}
 	d := adoc.Generate(g, o)
 	w, err := newWorld(d)
+	if err == nil && idx%4 == 3 {
+		// every fourth case runs the evaluator on the independent Cursor implementation (R-ref)
+		w, err = newRefWorld(d)
+		r.Count("cases_on_reference_cursor", 1)
+	}
 	if err != nil {
 		r.Inconclusive("store tree mismatch: " + err.Error())
 		return
